@@ -683,7 +683,33 @@ async fn run(_tier: Tier) {
     let j = contents.len() - 1;
     let i = sim::draw("xfer.from", (j + 1) as u64) as usize;
     let ixfr = i < j && sim::chance("xfer.ixfr", 2, 3);
-    let sec_content = if !ixfr && sim::chance("xfer.empty_secondary", 1, 3) { Content::new() } else { contents[i].clone() };
+    let mut sec_content = if !ixfr && sim::chance("xfer.empty_secondary", 1, 3) { Content::new() } else { contents[i].clone() };
+    // The secondary was loaded from a zone file that also held an alias and
+    // a delegation with glue (kept as such by the store, not as plain
+    // RRsets) the primary knows nothing about: an incremental transfer leaves
+    // them alone, a full transfer replaces them with the rest, a transfer
+    // that fails leaves them as they were.
+    let mut extras = Content::new();
+    if !sec_content.is_empty() && sim::chance("xfer.secondary_has_alias_and_delegation", 1, 3) {
+        sim::stat("probe.secondary_loaded_with_alias_and_delegation");
+        let mut add = |owner: &str, rtype: Rtype, rdata: &str| apply_add(&mut extras, &RecSpec { owner: format!("{}.{}", owner, APEX), rtype, ttl: 300, rdata: rdata.to_string() });
+        add("alias", Rtype::CNAME, "target0.example.");
+        add("deleg", Rtype::NS, &format!("ns.deleg.{}", APEX));
+        if sim::chance("xfer.secondary_ds", 1, 2) {
+            add("deleg", Rtype::DS, &format!("1000 15 2 {:064X}", 7));
+        }
+        add("ns.deleg", Rtype::A, "192.0.2.77");
+        for (k, v) in &extras {
+            sec_content.insert(k.clone(), v.clone());
+        }
+    }
+    let with_extras = |c: &Content| -> Content {
+        let mut c = c.clone();
+        for (k, v) in &extras {
+            c.insert(k.clone(), v.clone());
+        }
+        c
+    };
     let secondary: Zone = match build_direct(&sec_content) {
         Ok(z) => z,
         Err(e) => {
@@ -712,7 +738,7 @@ async fn run(_tier: Tier) {
             stream.extend(rem.into_iter().filter(|r| r.rtype != Rtype::SOA));
             stream.push(new_soa);
             stream.extend(add.into_iter().filter(|r| r.rtype != Rtype::SOA));
-            complete.push(contents[k + 1].clone());
+            complete.push(with_extras(&contents[k + 1]));
         }
     } else {
         let mut body: Vec<RecSpec> = content_records(&contents[j]).into_iter().filter(|r| r.rtype != Rtype::SOA).collect();
@@ -846,7 +872,7 @@ async fn run(_tier: Tier) {
                 );
                 return;
             }
-            if fault == "none" && *c != contents[j] {
+            if fault == "none" && *c != if ixfr { with_extras(&contents[j]) } else { contents[j].clone() } {
                 sim::harness_error("reference interpreter disagrees with the model on a fault-free transfer".to_string());
             }
         }
